@@ -5,7 +5,7 @@ import z3
 
 from .core import (PathEnd, PyRaise, STATS, Unsupported, concretize, is_sym_bool)
 
-FEAS_TIMEOUT_MS = 4000
+FEAS_TIMEOUT_MS = 2500
 
 
 class Frame:
@@ -23,9 +23,10 @@ class CtxMixin:
         self.solver = z3.Solver()          # quantifier-free part of the path
         self.solver.set('timeout', FEAS_TIMEOUT_MS)
         self.full = z3.Solver()            # whole path, E-matching only (fast unsat)
-        self.full.set('timeout', 1500)
+        self.full.set('timeout', 400)
         self.full.set('smt.mbqi', False)
         self.nquant = 0
+        self.check_cache = {}
         self.pcq = []
         self.pc = []
         self.frames = []
@@ -75,6 +76,15 @@ class CtxMixin:
     def check_sat(self, *extra):
         """unsat only if certainly infeasible; quantified facts are used through
         E-matching only (an `unknown` there counts as feasible)"""
+        key = (tuple(f.get_id() for f in self.pc), tuple(e.get_id() for e in extra))
+        hit = self.check_cache.get(key)
+        if hit is not None:
+            return hit[0]
+        r = self._check_sat(*extra)
+        self.check_cache[key] = (r, list(self.pc), extra)  # keeps the ASTs (and their ids) alive
+        return r
+
+    def _check_sat(self, *extra):
         if any(has_quant(e) for e in extra):
             r = z3.unknown
         else:
